@@ -78,6 +78,10 @@ def proj(v):
     return "other"
 
 
+def _nothing():
+    pass
+
+
 def replay_history(cfg, name, hist):
     from traits.api import Int, Str, ReadOnly, Event, Property
     from traits.trait_errors import TraitError
@@ -100,6 +104,9 @@ def replay_history(cfg, name, hist):
                 type(obj).add_class_trait(arg + "_", transfer(Int if arg == "f" else Str, cfg.get("via", "direct")))
             elif op == "remove_trait":
                 res = "true" if obj.remove_trait(nm) else "false"
+            elif op == "listen":
+                obj.on_trait_change(_nothing, nm)
+                obj.on_trait_change(_nothing, nm, remove=True)
             else:
                 raise MachineryError(op)
         except TraitError:
